@@ -10,6 +10,8 @@ import FlexModel.Geo.RouterLemmas
 import FlexModel.Geo.NetLemmas
 import FlexModel.Geo.NetFlood
 import Generated.Mib
+import FlexModel.Geo.RouterSecLemmas
+import Generated.RouterRx
 
 namespace Props.C06
 open FlexModel.Geo
@@ -482,6 +484,170 @@ example :
     (netRunH x ops).nodes.all (fun nd => nd.s.buf.isEmpty) = true ∧
     [0, 1, 2, 3].map (fun i => txCount 100 65535 i tr) = [0, 1, 1, 1] ∧
     [0, 1, 2, 3].map (fun i => dlvCount 100 65535 i tr) = [0, 1, 1, 1] ∧ totalTx 100 65535 tr + 1 = 4 := by
+  decide
+
+/-! ## Wire level (Round 4): secured and unsecured packets, the per-thread receive context, fault points
+
+`FlexModel/Geo/RouterSec.lean`: a frame arrives with Basic Header NH = Common Header or Secured Packet; a secured one is
+verified (opaque outcome), its secured message is put into the receive context of the thread for the duration of the
+dispatch, `_forward_pdu` emits `Basic Header(NH = secured, RHL - 1) + received secured message` under a context and the
+re-assembled PDU otherwise; the dispatch may be left by an exception (hop-limit check, raising indication callback). -/
+
+/-- the structural facts of the SOURCE TREE the wire-level model rests on, re-read on every run (`harness/gen_router.py`):
+the context is a `threading.local` created in `__init__`; in `process_security_header` the secured message is assigned
+immediately before a `try` that holds the dispatch and whose `finally` resets the context; nothing else writes it, only
+`_forward_pdu` reads it, and `_forward_pdu` is called by the forwarders of the receive path only (no source operation) -/
+theorem rx_context_discipline_of_source :
+    Generated.RouterRx.ctxResetInFinally = true ∧ Generated.RouterRx.ctxThreadLocal = true ∧
+    Generated.RouterRx.ctxWriters = ["process_security_header"] ∧ Generated.RouterRx.ctxReaders = ["_forward_pdu"] ∧
+    Generated.RouterRx.forwardPduCallers.all (fun f =>
+      ["gn_area_cbf_forwarding", "gn_data_forward_gbc", "gn_data_indicate_guc", "gn_data_indicate_gac",
+        "gn_data_indicate_ls_request", "gn_data_indicate_ls_reply", "gn_data_indicate_tsb"].contains f) = true := by
+  decide
+
+/-- the wire-level configuration the source tree implements: whether the context is reset on every exit of the dispatch is
+the regenerated fact -/
+def codeCfg (c : RCfg) (hasVerify secEnabled : Bool) : WCfg :=
+  { c := c, hasVerify := hasVerify, secEnabled := secEnabled, ctxFinally := Generated.RouterRx.ctxResetInFinally }
+
+theorem codeCfg_finally (c : RCfg) (hv en : Bool) : (codeCfg c hv en).ctxFinally = true := by
+  simp only [codeCfg]; decide
+
+/-- ONE RECEPTION, secured or not, any verification outcome, any fault: when the receiving thread holds no stale secured
+message, every frame a forwarder hands to the link layer is an admissible copy of the RECEIVED FRAME (`WCopy`): for a packet
+received secured exactly `Basic Header(NH = Secured Packet, RHL - 1) + the received secured message` - envelope, signed
+headers and payload untouched, no DE refresh; for an unsecured packet the re-assembled packet with RHL - 1 (DE position
+vector possibly refreshed as in `forward_is_copy`); only for a received RHL ≥ 2, and RHL - 1 ≤ MHL -/
+theorem wire_forward_is_copy (w : WCfg) (hg : w.c.gacFix = true) (s : WSt) (x : Rx) (env : Env) (now : Nat)
+    (hctx : s.ctx x.thr = none) (g : WFrame) (h : g ∈ sentW w s x env now) :
+    WCopy (recvW w s x env now).1.r.t x g := by
+  cases hp : Processed w x
+  · rw [sentW_not_processed w s x env now hp] at h; cases h
+  obtain ⟨h1, h2, h3, _⟩ := recvW_processed w s x env now hp
+  simp only [sentW, h1, h3] at h
+  obtain ⟨q, hq, rfl⟩ := mem_wsent.1 h
+  obtain ⟨a1, a2, a3, a4⟩ := forward_is_copy w.c hg s.r x.p env now q hq
+  rw [h2]
+  have hm : q.mhl = x.p.mhl := by
+    rcases a4 with rfl | ⟨_, e, _, _, _, rfl⟩ <;> rfl
+  refine ⟨a1, by omega, ?_⟩
+  cases hs : x.sec
+  · simp only [Bool.false_eq_true, if_false, hctx, forwardPdu]
+    rcases a4 with rfl | ⟨hk, e, he, hn, ht, rfl⟩
+    · exact Or.inl rfl
+    · exact Or.inr ⟨hk, e, he, hn, ht, rfl⟩
+  · have : q.rhl = x.p.rhl - 1 := by omega
+    simp only [if_true, forwardPdu, this]
+
+/-- a frame that is not handed to the handlers (unsecured at a station with itsGnSecurity ENABLED; secured without a verify
+service or with a failed verification) causes no action, no transmission and no state change -/
+theorem gated_frame_is_quiet (w : WCfg) (s : WSt) (x : Rx) (env : Env) (now : Nat) (h : Processed w x = false) :
+    recvW w s x env now = (s, [], none) ∧ sentW w s x env now = [] :=
+  ⟨recvW_not_processed w s x env now h, sentW_not_processed w s x env now h⟩
+
+/-- ALL HISTORIES, ALL FAULT POINTS: with the reset in the `finally`, no receive thread ever holds a secured message between
+two receptions - whatever mix of secured / unsecured frames, verification outcomes, hop-limit failures and raising
+indication callbacks on whatever threads, timer expiries and Location Service requests the station went through -/
+theorem rx_context_clear_after_every_history (w : WCfg) (hf : w.ctxFinally = true) (ops : List WOp) (s : WSt)
+    (h : CtxClear s) : CtxClear (wrun w s ops).1 :=
+  wrun_ctx_clear w hf ops s h
+
+/-- every frame sent during every reception of the history is an admissible copy of the frame received in THAT reception -/
+def HistCopies (w : WCfg) : WSt → List WOp → Prop
+  | _, [] => True
+  | s, op :: r =>
+    (match op with
+      | .rx x env now => ∀ g ∈ sentW w s x env now, WCopy (recvW w s x env now).1.r.t x g
+      | _ => True) ∧ HistCopies w (wstep w s op).1 r
+
+/-- ALL HISTORIES: from a state with clear receive contexts, along every sequence of receptions (secured and unsecured
+mixed, every verification outcome, processing aborted after verification by the hop-limit check or by a raising callback,
+any threads), CBF timer expiries and Location Service requests, every forwarded frame is an admissible copy of the frame
+whose reception caused it - in particular an unsecured packet received after an aborted secured one is forwarded as
+itself, never behind the previous packet's secured message -/
+theorem wire_history_forward_is_copy (w : WCfg) (hg : w.c.gacFix = true) (hf : w.ctxFinally = true) :
+    ∀ (ops : List WOp) (s : WSt), CtxClear s → HistCopies w s ops := by
+  intro ops
+  induction ops with
+  | nil => intro _ _; trivial
+  | cons op r ih =>
+    intro s h
+    refine ⟨?_, ih _ (wstep_ctx_clear w hf s op h)⟩
+    cases op with
+    | rx x env now => exact fun g hgm => wire_forward_is_copy w hg s x env now (h x.thr) g hgm
+    | fire k => trivial
+    | lsreq a req => trivial
+
+/-- … instantiated at the source tree: the hypothesis about the `finally` is discharged by the regenerated fact -/
+theorem code_history_forward_is_copy (c : RCfg) (hg : c.gacFix = true) (hv en : Bool) (ops : List WOp) (s : WSt)
+    (h : CtxClear s) : HistCopies (codeCfg c hv en) s ops :=
+  wire_history_forward_is_copy (codeCfg c hv en) hg (codeCfg_finally c hv en) ops s h
+
+/-- CBF on the wire: the PDU put into the buffer when a reception arms a timer is the admissible copy of the received frame
+(secured: received secured message behind `Basic Header(NH = secured, RHL - 1)`), it survives every later operation that
+leaves the key in the buffer (other receptions on any thread - secured or not, aborted or not -, other timers, Location
+Service requests), and the timer expiry sends exactly it -/
+theorem cbf_buffers_wire_copy (w : WCfg) (hg : w.c.gacFix = true) (s : WSt) (x : Rx) (env : Env) (now : Nat)
+    (hctx : s.ctx x.thr = none) (k : Key) (ms : Nat) (h : Act.arm k ms ∈ (recvW w s x env now).2.1)
+    (mid : List WOp) (hstay : StaysBuffered w k (recvW w s x env now).1 mid) :
+    2 ≤ x.p.rhl ∧ k = (x.p.so, x.p.sn) ∧
+    (fireW (wrun w (recvW w s x env now).1 mid).1 k).2 =
+      [if x.sec then .secured (x.p.rhl - 1) x.m else .plain { x.p with rhl := x.p.rhl - 1 }] := by
+  cases hp : Processed w x
+  · rw [recvW_not_processed w s x env now hp] at h; cases h
+  obtain ⟨h1, h2, h3, h4⟩ := recvW_processed w s x env now hp
+  rw [h1] at h
+  rcases recvR_acts w.c hg s.r x.p env now _ h with ⟨hc, _⟩ | ⟨hok, _, _⟩
+  · cases hc
+  obtain ⟨b1, _, _, hk, hb⟩ := hok.2.1 k ms rfl
+  have harm : (arms (recvR w.c s.r x.p env now).2).contains k = true := by
+    simp only [List.contains_iff_mem]
+    exact mem_arms.2 ⟨ms, h⟩
+  have hw : wbufGet (recvW w s x env now).1.wbuf k =
+      some (if x.sec then .secured (x.p.rhl - 1) x.m else .plain { x.p with rhl := x.p.rhl - 1 }) := by
+    rw [h4, wbufGet_sync, hb, harm]
+    cases hs : x.sec
+    · simp only [Bool.false_eq_true, if_false, hctx, forwardPdu, Option.map_some, if_true]; rfl
+    · simp only [if_true, forwardPdu, Option.map_some]; rfl
+  obtain ⟨k1, k2⟩ := wrun_keeps w hg k _ mid _ hw hstay
+  obtain ⟨q, hq⟩ := bufHas_get _ _ k2
+  refine ⟨b1, hk, ?_⟩
+  simp only [fireW, hq, k1, Option.getD_some]
+
+/-- WITNESS (seeded change C06-m6, `ctxFinally = false`: the reset is straight-line code after the dispatch).  A secured TSB
+whose processing is aborted after verification (RHL 5 > MHL 3: `DecapError`; or accepted, forwarded, and the indication
+callback raises) leaves its secured message (identity 77) in the context; the next UNSECURED TSB (RHL 4) on the same thread
+is then "forwarded" as `Basic Header(NH = secured, RHL 3) + secured message 77`.  With the `finally` it is forwarded as
+itself with RHL 3; so is a packet on another thread even without it. -/
+theorem rx_context_stale_witness :
+    let c : RCfg := { loct := { self := 1, lifetimeMs := 20000, dplLen := 8 } }
+    let p1 : Pkt := { kind := .tsb, rhl := 5, mhl := 3, so := 5, soPV := { time := 1000 }, sn := 1 }
+    let p2 : Pkt := { kind := .tsb, rhl := 4, mhl := 10, so := 6, soPV := { time := 1000 }, sn := 2 }
+    let bad : WCfg := { c := c, hasVerify := true, ctxFinally := false }
+    let good : WCfg := { c := c, hasVerify := true }
+    let h1 := [WOp.rx { sec := true, m := 77, p := p1 } {} 1000, .rx { p := p2 } {} 1010]
+    let h2 := [WOp.rx { sec := true, m := 77, p := { p1 with mhl := 10 }, cbRaises := true } {} 1000, .rx { p := p2 } {} 1010]
+    let h3 := [WOp.rx { sec := true, m := 77, p := p1 } {} 1000, .rx { thr := 1, p := p2 } {} 1010]
+    (wrun bad {} h1).2 = [[], [.secured 3 77]] ∧ (wrun good {} h1).2 = [[], [.plain (fwd p2)]] ∧
+    (wrun bad {} h2).2 = [[.secured 4 77], [.secured 3 77]] ∧ (wrun good {} h2).2 = [[.secured 4 77], [.plain (fwd p2)]] ∧
+    (wrun bad {} h3).2 = [[], [.plain (fwd p2)]] := by
+  decide
+
+/-- non-vacuity of `wire_history_forward_is_copy` / `cbf_buffers_wire_copy`: CBF station with a verify service; a secured GBC
+(message 9) is buffered and its indication callback raises, an unsecured TSB passes, a secured GUC with a failed
+verification is ignored, a secured TSB is forwarded with its envelope, then the timer fires: it sends the secured GBC with
+RHL 2 behind its own envelope -/
+example :
+    let c : RCfg := { loct := { self := 1, lifetimeMs := 20000, dplLen := 8 }, cbf := true }
+    let w : WCfg := { c := c, hasVerify := true }
+    let g : Pkt := { kind := .gbc, rhl := 3, mhl := 10, so := 5, soPV := { time := 1000 }, sn := 7 }
+    let t : Pkt := { kind := .tsb, rhl := 4, mhl := 10, so := 6, soPV := { time := 1000 }, sn := 2 }
+    let ops := [WOp.rx { sec := true, m := 9, p := g, cbRaises := true } { inside := true } 1000, .rx { p := t } {} 1010,
+      .rx { sec := true, m := 10, vok := false, p := { t with kind := .guc, sn := 3 } } {} 1020,
+      .rx { sec := true, m := 11, p := { t with sn := 4 } } {} 1030, .fire (5, 7)]
+    (wrun w {} ops).2 = [[], [.plain (fwd t)], [], [.secured 3 11], [.secured 2 9]] ∧
+    StaysBuffered w (5, 7) (recvW w {} { sec := true, m := 9, p := g, cbRaises := true } { inside := true } 1000).1
+      ((ops.drop 1).take 3) := by
   decide
 
 end Props.C06
